@@ -35,6 +35,7 @@ mod oracle_c07;
 mod oracle_c18;
 mod script_c02;
 mod script_c05;
+mod script_c06;
 mod script_c18;
 mod step;
 use step::{CandView, Expect, Step};
@@ -1238,6 +1239,7 @@ fn main() {
     std::panic::set_hook(Box::new(|_| {}));
     let mut out = Out::new();
     let seed = seed_from_env();
+    if script_name.as_deref() == Some("c06") { script_c06::run(&mut out, seed, thorough); out.flush(); return; } // C06: finite key sweep, own driver loop
     if args.iter().any(|a| a == "--c17-pairs") {
         // C17: paired executions only (with/without getters, reset vs fresh, alone vs beside another context)
         oracle_c17::run_pairs(&mut out, seed, thorough);
@@ -1371,6 +1373,7 @@ fn main() {
             // what the application sees before the operation (C02); getters only, before the log is reset
             LOOKUPS.with(|c| c.set(0));
             let display_pre = catch_unwind(AssertUnwindSafe(|| s.ed.display())).ok();
+            let alts_pre: Vec<String> = s.conv_log.borrow().last().map(|c| c.2.iter().map(|p| p.iter().map(|iv| &*iv.str).collect()).collect()).unwrap_or_default();
             let len_pre = s.ed.len();
             s.conv_log.borrow_mut().clear();
             let st_ix = match pre.as_bytes()[0] {
@@ -1535,7 +1538,7 @@ fn main() {
                         cand_pre: cand_pre.as_ref(), cand_post: cand_post.as_ref(),
                         outcome: "ok", no_word_pre: no_word_pre.as_deref(), no_word_post: no_word_post.as_deref(), getter_fail,
                         display_pre: display_pre.as_deref(), display_post: display_post.as_deref(),
-                        len_pre, len_post: s.ed.len(), commit_post: &commit_post, conv: &conv_step,
+                        len_pre, len_post: s.ed.len(), commit_post: &commit_post, conv: &conv_step, alts_pre: &alts_pre,
                     };
                     // the properties, evaluated directly on the real editor (one module per property)
                     oracle_c02::check(&mut out, &step);
@@ -1575,7 +1578,7 @@ fn main() {
                         cand_pre: cand_pre.as_ref(), cand_post: None,
                         outcome: how, no_word_pre: no_word_pre.as_deref(), no_word_post: None, getter_fail: None,
                         display_pre: display_pre.as_deref(), display_post: None,
-                        len_pre, len_post: len_pre, commit_post: "", conv: &conv_step,
+                        len_pre, len_post: len_pre, commit_post: "", conv: &conv_step, alts_pre: &alts_pre,
                     };
                     oracle_c01::check(&mut out, &step);
                     if how == "hang" {
